@@ -17,6 +17,10 @@ SHARDS = {'quick': 8, 'thorough': 16}
 TIMEOUT = {'quick': 600, 'thorough': 3000}
 
 ALL = [(e, k) for e in 'AB' for k in walk.TRIGGER_KINDS]
+WALK_CONFS = [{}, {}, dict(child_a={'encr': ['aes128'], 'integ': ['sha1'], 'dh': ['19']}), dict(mode='tunnel', a_subnet='10.1.0.0/24', b_subnet='10.2.0.0/24'),
+              dict(v6=True), dict(ipsec_proto='ah'), dict(auth='rsa'),
+              dict(ike_a={'encr': ['aes256'], 'integ': ['sha256'], 'prf': ['sha256'], 'dh': ['19', '20']}, ike_b={'encr': ['aes256'], 'integ': ['sha256'], 'prf': ['sha256'], 'dh': ['20', '19']}),
+              dict(child_a={'encr': ['aes256'], 'integ': ['sha256'], 'dh': ['14', '19']}, child_b={'encr': ['aes256'], 'integ': ['sha256'], 'dh': ['19', '14']})]
 
 
 def trigger_lists(ck):
@@ -57,7 +61,10 @@ def run(ck):
         if not ck.mine(w):
             continue
         lossy = w % 2 == 1
-        sc = walk.Scenario(seedbase + 7919 * w, mons, n_children=1 + w % 2)
+        # the start state is an established IKE_SA with one (every second walk: two) CHILD_SAs, over a rotating set of configurations
+        conf = WALK_CONFS[w % len(WALK_CONFS)]
+        sc = walk.Scenario(seedbase + 7919 * w, mons, dict(conf), n_children=1 + w % 2)
+        ck.seen('walk_confs', w % len(WALK_CONFS))
         if not sc.ok:
             ck.count('handshake_failed')
             continue
